@@ -125,7 +125,18 @@ pub fn run_case(rep: &mut Report, fmt: Fmt, seed: u64, index: u64, verbose: bool
         gen.unknown_props = false;
         gen.unknown_classes = false;
     }
-    let spec = gen.tree(&mut rng);
+    let mut spec = gen.tree(&mut rng);
+    if fmt == Fmt::Xml && !rng.chance(1, 8) {
+        // rbx_xml panics on Content::Object (known finding); keep observing it in 1/8 of the
+        // cases and let the others exercise the rest of the writer
+        for n in spec.nodes.iter_mut() {
+            for (_, pv) in n.props.iter_mut() {
+                if let PV::ContentObj(_) = pv {
+                    *pv = PV::V(rbx_dom_weak::types::Variant::Content(rbx_dom_weak::types::Content::none()));
+                }
+            }
+        }
+    }
     let sel = gen.selection(&mut rng, &spec);
     let mode = if spec.nodes.len() > 200 { BuildMode::Incremental } else { *rng.pick(&[BuildMode::Nested, BuildMode::Incremental, BuildMode::ShuffledProps]) };
     let built = spec::build(&spec, mode, &mut rng);
